@@ -115,6 +115,7 @@ struct PkgEngine : Engine {
 			o.blocks_max = 7;
 			for (auto & u : urls) if (u != "style.css") { o.image_urls.push_back(u); if (w.chance(1, 4)) o.image_urls.push_back("./" + u); }
 			if (w.chance(1, 5)) o.image_urls.push_back("http://example.com/remote.png");
+			if (w.chance(1, 5)) { static const char * odd[] = {"a.png?v=2&cache=no", "q3.sales&costs", "pic.v<2", "sub/c.png#frag&x"}; o.image_urls.push_back(odd[w.below(4)]); }      // URLs with XML-reserved characters, also after the last dot
 			if (w.chance(1, 6)) o.image_urls.push_back("/sim/assets/a.png");
 			std::string doc;
 			if (w.chance(2, 3)) {
